@@ -210,7 +210,7 @@ def f23(mod, plan, viol):
 
 # ---- C04: DEFAULT elision of constructed components relies on == of the raw component stores ----
 
-def _demote_constructed_defaults(desc, kinds=('SEQ', 'SET', 'SETOF')):
+def _demote_constructed_defaults(desc, kinds=('SEQ', 'SET', 'SETOF', 'CHOICE')):
     """Copy of desc in which DEFAULT components of the given constructed kinds are OPTIONAL."""
     from simkit import universe as U
     d = copy.deepcopy(desc)
@@ -238,7 +238,8 @@ def f24(mod, plan, viol):
     """F24: whether a DEFAULT component of SET OF / SEQUENCE / SET type is left out of DER/CER is decided
     with ==, which for constructed values compares the raw component stores (F9f): order of insertion of
     SET OF members, lazily instantiated inner defaults and absent inner OPTIONALs all change the answer.
-    SEQUENCE OF defaults are NOT covered (their comparison is positional and correct)."""
+    CHOICE members compare through their raw stores too (and may raise).  SEQUENCE OF defaults of scalar
+    element types are NOT covered (their comparison is positional and correct)."""
     if viol['sig'][0] not in ('replicas-diverge', 'read-only-use-changed-encoding', 'reencoding-decoded-canonical-differs'):
         return False
     d2, changed = _demote_constructed_defaults(plan['desc'])
@@ -248,3 +249,26 @@ def f24(mod, plan, viol):
     p2['desc'] = d2
     res = mod.execute(p2)
     return res['status'] != 'violation'
+
+
+@classifier('f25_nested_placeholder_counts_as_value')
+def f25(mod, plan, viol):
+    """F25: a subscript read of an absent constructed component stores a placeholder; a placeholder of a
+    SEQUENCE/SET type whose components are all OPTIONAL/DEFAULT is born as a value, so once a *nested*
+    read has put one inside an outer placeholder, the outer one has its mandatory component "present",
+    counts as a value and is encoded.  Only reads that descend (deep_read) can trigger it: the same plan
+    with every deep read replaced by a one-level read of all components must be clean."""
+    if viol['sig'][0] != 'read-only-use-changed-encoding' or viol['sig'][2] != 'deep_read':
+        return False
+    p2 = copy.deepcopy(plan)
+    for rep in p2['replicas']:
+        rep['reads'] = [(['values', r_[1]] if r_[0] == 'deep_read' else r_) for r_ in rep['reads']]
+    res = mod.execute(p2)
+    return res['status'] != 'violation'
+
+
+@classifier('f26_real_not_encodable')
+def f26(mod, plan, viol):
+    from simkit import universe as U
+    return (viol['sig'][0] == 'encoder-rejects-accepted-value' and viol['sig'][1] == 'OverflowError'
+            and U.has_kind(plan['workload']['desc'], ('REAL',)))
